@@ -7,7 +7,7 @@ PID = "C20"
 LEAN_MODULE = "Sb.Properties.C20Scale"
 THEOREMS = [
     "Sb.C20.init_inv", "Sb.C20.view_inv", "Sb.C20.growCap_ge", "Sb.C20.growCap_gt", "Sb.C20.realloc_spec",
-    "Sb.C20.view_cannot_resize", "Sb.C20.view_cannot_grow", "Sb.C20.append_contents", "Sb.C20.resize_smaller", "Sb.C20.fill_size",
+    "Sb.C20.view_cannot_resize", "Sb.C20.view_cannot_grow", "Sb.C20.append_contents", "Sb.C20.resize_smaller", "Sb.C20.resize_contents", "Sb.C20.fill_size",
     "Sb.C20.rgbw_min_subtraction", "Sb.C20.interval_never_inverted", "Sb.C20.interval_collapses",
     "Sb.C20.code_cruise_expression", "Sb.C20.profile_continuous_at_boundary", "Sb.C20.profile_monotone",
             "Sb.C20.lerp_zero", "Sb.C20.lerp_one", "Sb.C20.lerp_between", "Sb.C20.rgbw_reference_le", "Sb.C20.refParams_div_nonneg",
